@@ -60,6 +60,7 @@ class SymFile(Proxy):
         self.closed = False
         self.name = name
         self.body_read = False
+        self.unparsable = False  # V bool: the body cannot be parsed as a table (ragged rows, a non-numeric token)
 
     def readline(self):
         _use("file.readline")
@@ -133,6 +134,9 @@ def sym_loadtxt(fobj, dtype=None, **kw):
     if fobj.pos != len(fobj.lines):
         # header not fully consumed: the remaining header lines would be parsed as data
         raise Unsupported("loadtxt called before the five header lines were read")
+    if fobj.unparsable is not False and bool(fobj.unparsable):
+        # numpy.loadtxt raises ValueError for rows of unequal length / tokens that are not numbers
+        raise ValueError("Wrong number of columns / could not convert string to float (numpy.loadtxt)")
     fobj.body_read = True
     snap = fobj.body.snapshot()
     return new_array(fobj.body.shape, lambda idx: snap(*idx), "f")
